@@ -14,4 +14,38 @@ rm -rf .venv
 SP=$(.venv/bin/python -c 'import site; print(site.getsitepackages()[0])')
 echo "import site; site.addsitedir('/venv/lib/python3.12/site-packages')" > "$SP/verif_overlay.pth"
 PIP_NO_INDEX=1 .venv/bin/pip install -q --no-index --find-links /opt/veriftools/wheels crosshair-tool z3-solver >/dev/null
+# CrossHair 0.0.110's tracer mis-computes the Python 3.12 value-stack depth after END_ASYNC_FOR
+# (one pop instead of two: awaitable + exception), which makes opcode interception segfault in
+# any code that follows an exhausted `async for` -- i.e. every async-compiled template loop.
+# The wheel ships its C sources; rebuild the extension with the one-line correction.
+CH="$SP/crosshair"
+B=$(mktemp -d /tmp/verif-chb.XXXXXX)
+cp "$CH"/_tracers.c "$CH"/_tracers.h "$CH"/_tracers_pycompat.h "$CH"/_mark_stacks.h "$B"/
+if .venv/bin/python - "$B/_mark_stacks.h" <<'PY'
+import sys
+p = sys.argv[1]
+s = open(p).read()
+old = """                   // Python 3.12
+                    next_stack--;
+#else"""
+new = """                   // Python 3.12 (verif patch: END_ASYNC_FOR pops awaitable and exc)
+                    next_stack--;
+                    next_stack--;
+#else"""
+if s.count(old) == 1:
+    open(p, "w").write(s.replace(old, new))
+else:
+    print("WARNING: crosshair tracer patch site not found; leaving extension unpatched", file=sys.stderr)
+    sys.exit(3)
+PY
+then
+  INC=$(.venv/bin/python -c "import sysconfig; print(sysconfig.get_paths()['include'])")
+  SO=$(ls "$SP"/_crosshair_tracers*.so)
+  if gcc -O2 -w -shared -fPIC -I"$INC" -I"$INC/internal" -I"$B" "$B/_tracers.c" -o "$B/out.so"; then
+    cp "$B/out.so" "$SO"
+  else
+    echo "WARNING: could not rebuild crosshair tracer; async loop conditions will be inconclusive" >&2
+  fi
+fi
+rm -rf "$B"
 .venv/bin/python -c 'import crosshair, z3, jinja2, markupsafe; print("verif venv ok: crosshair", crosshair.__version__ if hasattr(crosshair,"__version__") else "", "jinja2", jinja2.__file__)'
